@@ -25,9 +25,33 @@ def causes(E, V, depth=0):
         for k in E:
             if k in V:
                 out |= causes(E[k], V[k], depth + 1)
-                if isinstance(V[k], dict) and V[k] and not (isinstance(E[k], dict) and E[k]):
-                    out.add("object-built-at-matched-key")
     return out
+
+
+def merge_dev(E, V):
+    """SchemaMerge with the recorded deviation C19-empty-text-object built in: '{}' against a non-empty object keeps the
+    object.  Used only to decide whether a failing case shows exactly that recorded deviation and nothing else."""
+    if isinstance(E, dict) and E and isinstance(V, dict):
+        if not V:
+            return E
+        return {k: (merge_dev(E[k], V[k]) if k in V else E[k]) for k in E}
+    return V
+
+
+def py_canon(v):
+    """Accessor-walk tokens (harness/walk.h) of a Python JSON value."""
+    import struct
+    if v is None: return "n"
+    if v is True: return "t"
+    if v is False: return "f"
+    if isinstance(v, int): return ("u:%d" % v) if v >= 0 else ("i:%d" % v)
+    if isinstance(v, float): return "d:%016x" % struct.unpack("<Q", struct.pack("<d", v))[0]
+    if isinstance(v, str): return "s:" + (v.encode("utf-8").hex() or "-")
+    if isinstance(v, list): return " ".join(["["] + [py_canon(x) for x in v] + ["]"])
+    out = ["{"]
+    for k, x in v.items():
+        out += ["k:" + (k.encode("utf-8").hex() or "-"), py_canon(x)]
+    return " ".join(out + ["}"])
 
 
 def run(tier):
@@ -39,6 +63,8 @@ def run(tier):
     recs += M.gen_pairs(ctx, 2, 2, 4, "Gen_Schema_wide3", smode="wide3", layv=0 if q else 2)
     # an object nested in a declared member with members updated in place or rebuilt, followed / preceded by a declared member
     recs += M.gen_pairs(ctx, 2, 2, 4, "Gen_Schema_nest2", smode="nest2")
+    # beyond the exhaustive bound: random growth + random edits (TLC simulation)
+    recs += M.gen_rand(ctx, 6 if q else 60, 8, 3) + M.gen_rand(ctx, 3 if q else 30, 12, 5, layv=0 if q else 2)
     recs += M.gen_pairs(ctx, 3, 2, 4, "Gen_Schema_32_ws", laye=2, layv=3)            # whitespace layouts
     rows = [[str(i), hexs(r["e"]), hexs(r["v"]), T.canon(r["schema"]), T.canon(r["schema2"])] for i, r in enumerate(recs)]
     # leak detection off here: the leak of the previous schema buffer on repeated ParseSchema is a C13 matter
@@ -61,7 +87,15 @@ def run(tier):
         e, v = bytes.fromhex(row[1]), bytes.fromhex(row[2])
         bk = "crash" if kind.startswith("crash") else kind.split(":")[-1]
         try:
-            cs = sorted(causes(json.loads(e), json.loads(v)))
+            E, V = json.loads(e), json.loads(v)
+            cs = sorted(causes(E, V))
+            # the '{}' deviation has a definite outcome: a failing case counts as that recorded finding only if the
+            # observed document is exactly what the deviation predicts (anything else on such a pair is something new)
+            if cs == ["empty-text-object-vs-nonempty-object"] and bk in ("merge", "merge2") and " got=" in detail:
+                got = detail.split(" got=", 1)[1].strip()
+                pred = merge_dev(E, V) if bk == "merge" else merge_dev(merge_dev(E, V), V)
+                if got != py_canon(pred):
+                    cs = ["empty-text-object-vs-nonempty-object+unpredicted-result"]
         except Exception:
             cs = ["unparsed"]
         ctx.add_fail(dict(property="C19", kind=bk, sig=(kind if bk == "crash" else bk), build=b, allocator=kind.split(":")[0], detail=detail,
